@@ -19,6 +19,52 @@ fn main() {
         }
         return;
     }
+    if args.len() == 4 && args[1] == "--smoke" {
+        // replay --smoke <name-prefix> <iterations>: native smoke test of harness bodies.
+        let iters: u64 = args[3].parse().expect("iterations");
+        let mut bad = 0;
+        for (n, body) in registry() {
+            if !n.starts_with(args[2].as_str()) {
+                continue;
+            }
+            let (mut ok, mut rej, mut fail) = (0u64, 0u64, 0u64);
+            let mut first_fail = String::new();
+            let mut covered: Vec<&'static str> = Vec::new();
+            std::panic::set_hook(Box::new(|_| {}));
+            for it in 0..iters {
+                let mut nd = Nd::random(0x9E3779B97F4A7C15u64.wrapping_mul(it + 1));
+                match catch_unwind(AssertUnwindSafe(|| body(&mut nd))) {
+                    Ok(()) => {
+                        ok += 1;
+                        for c in nd.covered {
+                            if !covered.contains(&c) {
+                                covered.push(c);
+                            }
+                        }
+                    }
+                    Err(e) => {
+                        if e.downcast_ref::<Rejected>().is_some() {
+                            rej += 1;
+                        } else {
+                            fail += 1;
+                            if first_fail.is_empty() {
+                                first_fail = e
+                                    .downcast_ref::<String>()
+                                    .cloned()
+                                    .or_else(|| e.downcast_ref::<&str>().map(|s| s.to_string()))
+                                    .unwrap_or_default();
+                            }
+                        }
+                    }
+                }
+            }
+            println!("SMOKE {n}: ok={ok} rejected={rej} failed={fail} covered={covered:?} {first_fail}");
+            if fail > 0 {
+                bad += 1;
+            }
+        }
+        std::process::exit(if bad > 0 { 1 } else { 0 });
+    }
     if args.len() != 3 {
         eprintln!("usage: replay <harness> <script.json> | --list");
         std::process::exit(64);
